@@ -1374,9 +1374,11 @@ func (e *Env) RAstOrder() {
 			continue
 		}
 		stored := map[string]bool{}
+		guards := map[string][]string{}
 		for _, ev := range cs.Events {
 			if ev.Kind == schema.KPosStore {
 				stored[ev.Field] = true
+				guards[ev.Field] = append(guards[ev.Field], ev.Guard)
 			}
 		}
 		for _, f := range ant.Fields {
@@ -1384,11 +1386,38 @@ func (e *Env) RAstOrder() {
 				continue
 			}
 			key := tn + "." + f.Name
+			if why, always := posAlways[key]; always {
+				// a position the parser sets whether or not the token is written: stored on every
+				// path (an unguarded store, or stores whose guards cover everything)
+				every := false
+				var gs []string
+				for _, g := range guards[f.Name] {
+					if g == "" {
+						every = true
+					}
+					gs = append(gs, "("+g+")")
+				}
+				if !every && len(gs) > 0 {
+					if un, dec := unsatWith("!("+strings.Join(gs, " || ")+")", ""); dec && un {
+						every = true
+					}
+				}
+				m++
+				e.Run.Check("R-ASTORDER", "restore "+key+" is given a position on every path", e.casePos(cs), every,
+					fmt.Sprintf("restore case %s writes out.%s only under %v: %s; where it stays NoPos, End() of the node and of every statement that ends with it is invalid (smaller than its own Pos())", tn, f.Name, guards[f.Name], why))
+				continue
+			}
 			if why, ok := posNotRestored[key]; ok {
 				e.Run.OK("R-ASTORDER", "restore "+key+" is given a position", e.casePos(cs), "frozen exception: "+why)
 				continue
 			}
 			m++
+			if tn == "File" && !stored[f.Name] && e.restoreFileStores(f.Name) {
+				// the extent of the file is known only when it is registered: stored by RestoreFile
+				// (or a function it calls) instead of the restore case
+				e.Run.OK("R-ASTORDER", "restore "+key+" is given a position", e.casePos(cs), "stored by RestoreFile after the file is registered")
+				continue
+			}
 			e.Run.Check("R-ASTORDER", "restore "+key+" is given a position", e.casePos(cs), stored[f.Name],
 				fmt.Sprintf("restore case %s never writes out.%s: the token's position stays NoPos (IsValid() false, rank 0 among its neighbours) while a parse of the same text sets it", tn, f.Name))
 		}
@@ -1396,10 +1425,57 @@ func (e *Env) RAstOrder() {
 	e.Run.Floor("R-ASTORDER", "position fields", m, 60)
 }
 
+// restoreFileStores: RestoreFile, or a function of the package it calls, assigns the field of a
+// go/ast.File.
+func (e *Env) restoreFileStores(field string) bool {
+	pkg := e.Prog.Pkg(load.PkgDecorator)
+	info := pkg.TypesInfo
+	rf := load.FuncDecl(pkg, "FileRestorer", "RestoreFile")
+	if rf == nil || rf.Body == nil {
+		return false
+	}
+	assigns := func(body ast.Node) bool {
+		hit := false
+		ast.Inspect(body, func(n ast.Node) bool {
+			if as, ok := n.(*ast.AssignStmt); ok {
+				for _, l := range as.Lhs {
+					if se, ok := ast.Unparen(l).(*ast.SelectorExpr); ok && se.Sel.Name == field {
+						if p, tn := namedOf(info.TypeOf(se.X)); p == "go/ast" && tn == "File" {
+							hit = true
+						}
+					}
+				}
+			}
+			return true
+		})
+		return hit
+	}
+	if assigns(rf.Body) {
+		return true
+	}
+	found := false
+	ast.Inspect(rf.Body, func(n ast.Node) bool {
+		if call, ok := n.(*ast.CallExpr); ok {
+			if fn := calleeFunc(info, call); fn != nil && fn.Pkg() == pkg.Types {
+				for _, d := range load.AllFuncDecls(pkg) {
+					if info.Defs[d.Name] == types.Object(fn) && d.Body != nil && d != rf && assigns(d.Body) {
+						found = true
+					}
+				}
+			}
+		}
+		return true
+	})
+	return found
+}
+
+// posAlways: position fields that go/parser sets even when their token is not written.
+var posAlways = map[string]string{
+	"EmptyStmt.Semicolon": "go/parser gives an omitted semicolon (a label directly before `}`) the position of what follows it",
+}
+
 // posNotRestored: position fields that legitimately have no token of their own in the restored text.
 var posNotRestored = map[string]string{
-	"File.FileStart":    "extent of the file, not a token (go1.20+); the file is registered with AddFile",
-	"File.FileEnd":      "extent of the file, not a token (go1.20+)",
 	"ImportSpec.EndPos": "not set by the parser either: only ast.SortImports fills it (it overrides Path.Pos as the spec's end when non-zero)",
 }
 
